@@ -416,7 +416,7 @@ pub mod fasta {
                 && t.1 < final(self).b().len() && final(self).b()[t.1 as int] == t.2 && final(self).filled()
                 && final(self).base() + t.1 == first_nonblank(final(self).f(), 0)
                 && t.0 == true_line(final(self).f(), final(self).base() + t.1),
-            [C01|fasta.first_byte.empty] r matches Ok(None) ==> final(self).buf_reader.errs() == old(self).buf_reader.errs()
+            [C01|fasta.first_byte.empty] r matches Ok(None) ==> final(self).buf_reader.errs() == old(self).buf_reader.errs() && final(self).filled()
                 && (old(self).fresh() ==> first_nonblank(final(self).f(), 0) == final(self).f().len()),
             [C14|fasta.first_byte.err] r matches Err(e) ==> (e matches Error::Io(x) && final(self).buf_reader.errs() == old(self).buf_reader.errs().push(x)),
 //@loop 0 kw=while
@@ -536,11 +536,12 @@ pub mod fasta {
                 && final(self).base() + final(self).buf_pos.start == first_nonblank(final(self).f(), 0)
                 && final(self).position.byte == first_nonblank(final(self).f(), 0)
                 && final(self).position.line == true_line(final(self).f(), first_nonblank(final(self).f(), 0)),
-            [C01|fasta.init.empty] r matches Ok(false) ==> final(self).buf_reader.errs() == old(self).buf_reader.errs() && final(self).state == State::Finished
+            [C01|fasta.init.empty] r matches Ok(false) ==> final(self).buf_reader.errs() == old(self).buf_reader.errs() && final(self).state == State::Finished && final(self).filled()
                 && (old(self).fresh() ==> first_nonblank(final(self).f(), 0) == final(self).f().len()),
             [C01,C17,C14|fasta.init.err] r matches Err(e) ==> match e {
                 Error::Io(x) => final(self).buf_reader.errs() == old(self).buf_reader.errs().push(x) && final(self).state == State::Finished,
                 Error::InvalidStart { line, found } => final(self).buf_reader.errs() == old(self).buf_reader.errs() && final(self).state == State::Finished
+                    && final(self).filled()
                     && ({ let s0 = first_nonblank(final(self).f(), 0);
                             s0 < final(self).f().len() && final(self).f()[s0] != 62u8 && found == final(self).f()[s0] && line == true_line(final(self).f(), s0) }),
                 _ => false,
@@ -566,7 +567,7 @@ pub mod fasta {
                               && (self.clean() ==> at_end(self.b(), self.search_pos as int) && self.b().len() == self.buf_reader.cap()),
                 State::Positioned => self.filled() && self.buf_pos.seq_pos@.len() == 0 && self.search_pos == self.buf_pos.start
                               && self.buf_pos.start < self.b().len() && self.b()[self.buf_pos.start as int] == 62u8,
-                State::Finished => true,
+                State::Finished => self.filled(),
             }
         &&& (self.state != State::Finished && self.state != State::New ==> self.coords())
     }
@@ -650,6 +651,16 @@ pub mod fasta {
             }
 //@end
 
+//@fn fasta::Reader::set_policy ret=r tags=C09
+//@spec
+        requires
+            self.wf(), policy.policy_ok(),
+        ensures
+            [C09|fasta.set_policy.keeps_stream] r.wf() && r.buf_reader == self.buf_reader && r.buf_pos == self.buf_pos && r.position == self.position
+                && r.search_pos == self.search_pos && r.state == self.state && r.buf_policy == policy
+                && r.cursor() == self.cursor() && r.f() == self.f(),
+//@end
+
 //@fn fasta::Reader::next ret=r tags=C01,C03,C05,C06,C14,C17
 //@spec
         requires
@@ -713,6 +724,53 @@ pub mod fasta {
         ensures
             [C05|fasta.position.none_before_first_record] self.buf_pos.seq_pos@.len() == 0 ==> r is None,
             [C05|fasta.position.is_field] self.buf_pos.seq_pos@.len() > 0 ==> r == Some(&self.position),
+//@end
+}
+
+//@impl_open fasta::Reader::seek
+//@fn fasta::Reader::seek ret=r tags=C05,C06,C14 r12="seek|fill_buf"
+//@spec
+        requires
+            old(self).wf(),
+            to.byte < old(self).f().len(), old(self).f()[to.byte as int] == 62u8,
+            to.line == true_line(old(self).f(), to.byte as int),
+            old(self).state == State::Finished ==> old(self).position.byte == old(self).gpos() && old(self).position.byte <= old(self).f().len() + 1,
+        ensures
+            [C05,C06|fasta.seek.frame] final(self).f() == old(self).f() && final(self).buf_policy == old(self).buf_policy,
+            [C05,C03|fasta.seek.positioned] r is Ok ==> final(self).wf() && final(self).state == State::Positioned
+                && final(self).position == *to && final(self).gpos() == to.byte && final(self).cursor() == to.byte
+                && final(self).buf_reader.errs() == old(self).buf_reader.errs(),
+            [C09|fasta.seek.capacity] final(self).buf_reader.cap() == old(self).buf_reader.cap(),
+            [C14|fasta.seek.err] r matches Err(e) ==> (e matches Error::Io(x) && final(self).buf_reader.errs() == old(self).buf_reader.errs().push(x)),
+//@end
+}
+
+//@impl_open fasta::Reader::with_capacity
+//@fn fasta::Reader::with_capacity ret=r tags=C01,C06,C09
+//@spec
+        requires
+            3 <= capacity <= isize::MAX,
+        ensures
+            [C06,C01|fasta.with_capacity.fresh] r.wf() && r.state == State::New && r.fresh(),
+            [C09|fasta.with_capacity.capacity] r.buf_reader.cap() >= capacity,
+//@end
+}
+
+//@impl_open fasta::Position::new
+//@fn fasta::Position::new ret=r tags=C05
+//@spec
+        ensures
+            [C05|fasta.Position.new] r.line == line && r.byte == byte,
+//@end
+//@fn fasta::Position::line ret=r tags=C05
+//@spec
+        ensures
+            [C05|fasta.Position.line] r == self.line,
+//@end
+//@fn fasta::Position::byte ret=r tags=C05
+//@spec
+        ensures
+            [C05|fasta.Position.byte] r == self.byte,
 //@end
 }
 
